@@ -11,7 +11,7 @@ use lc3_ensemble::sim::{InternalRegister, MemAccessCtx, SimErr, SimFlags, Simula
 use std::sync::atomic::Ordering;
 use std::sync::{Arc, Mutex, OnceLock};
 
-const SRC: [&str; 6] = [
+const SRC: [&str; 8] = [
     ".orig x3000\nLD R6, SP\nAND R0,R0,#0\nLOOP JSR A\nBPHERE ADD R0,R0,#1\nADD R2,R0,#-3\nBRn LOOP\nLEA R0, S\nPUTS\nHALT\nA ADD R6,R6,#-1\nSTR R7,R6,#0\nJSR B\nLDR R7,R6,#0\nADD R6,R6,#1\nRET\nB ADD R1,R1,#1\nST R1, M\nRET\nSP .fill xFD00\nM .fill 0\nS .stringz \"k\"\n.end",
     ".orig x3000\nAND R0,R0,#0\nAND R1,R1,#0\nLOOP ADD R1,R1,#2\nBPHERE ST R1, M\nADD R0,R0,#1\nADD R2,R0,#-4\nBRn LOOP\nHALT\nM .fill 0\n.end",
     ".orig x3000\nADD R0,R0,#1\nBPHERE ADD R0,R0,#1\nST R0, M\nADD R0,R0,#1\nHALT\nM .fill 0\n.end",
@@ -20,6 +20,10 @@ const SRC: [&str; 6] = [
     // the breakpoint address holds an instruction that transfers control to itself (a spin; a call to itself)
     ".orig x3000\nADD R0,R0,#1\nST R0, M\nBPHERE BRnzp BPHERE\nM .fill 0\n.end",
     ".orig x3000\nADD R0,R0,#1\nBPHERE JSR BPHERE\nM .fill 0\n.end",
+    // under real traps: a reserved opcode / a user-mode RTI in the middle of the program (the exception is taken inside the run: entry into the
+    // OS handler is a step that executes no instruction of the program)
+    ".orig x3000\nADD R0,R0,#1\nBPHERE .fill xD000\nADD R0,R0,#1\nST R0, M\nHALT\nM .fill 0\n.end",
+    ".orig x3000\nADD R0,R0,#1\nST R0, M\nBPHERE RTI\nADD R0,R0,#1\nHALT\nM .fill 0\n.end",
 ];
 /// (indices 5 and 6 of progs(): SRC[4], SRC[5])
 /// histories run on the deep-recursion program (index 4), outside the BFS: breakpoint at the call, run there (262144 steps), then step over / out / in
@@ -29,7 +33,7 @@ fn progs() -> &'static Vec<Prog> {
     static P: OnceLock<Vec<Prog>> = OnceLock::new();
     P.get_or_init(|| {
         let mk = |i: usize, real: bool| { let o = assemble_debug(parse_ast(SRC[i]).unwrap(), SRC[i]).unwrap(); let s = o.symbol_table().unwrap(); Prog { bp: s.lookup_label("BPHERE").unwrap(), m: s.lookup_label("M").unwrap(), obj: o, real } };
-        vec![mk(0, false), mk(1, false), mk(0, true), mk(2, false), mk(3, false), mk(4, false), mk(5, false)]
+        vec![mk(0, false), mk(1, false), mk(0, true), mk(2, false), mk(3, false), mk(4, false), mk(5, false), mk(6, true), mk(7, true)]
     })
 }
 
@@ -93,7 +97,7 @@ fn twin_step(w: &mut World) -> Result<(), SimErr> {
     let (pc0, n0) = (s.pc, s.instructions_run);
     let word = if pc0 < 0xFE00 { s.mem[pc0].get() } else { 0 };
     s.step_in()?;
-    if s.instructions_run == n0 { if s.pc == 0x1F00 && pc0 != 0x1F00 { w.depth += 1; } return Ok(()); } // interrupt entry (or a parked virtual HALT)
+    if s.instructions_run == n0 { if s.pc != pc0 { w.depth += 1; } return Ok(()); } // a step that executes no instruction but moves the PC: interrupt or (real traps) exception entry; a parked virtual HALT moves nothing
     match word >> 12 { 0x4 | 0xF => w.depth += 1, 0x8 => w.depth = w.depth.saturating_sub(1), 0xC if word == 0xC1C0 => w.depth = w.depth.saturating_sub(1), _ => {} }
     Ok(())
 }
@@ -190,10 +194,10 @@ fn visit(prog: usize, h: &[u16]) -> Visit {
 }
 
 pub fn run(ctx: &Ctx) -> Report {
-    let mut rep = Report::new("explicit-state BFS, for each of 6 programs (a spin and a call-to-self with the breakpoint on the self-jumping instruction; nested calls 2 deep + loop + PUTS trap + HALT; a store loop for memory breakpoints; the first program under real traps, halting through the OS's MCR write; a straight line), over histories of 24 operations: the host moving the PC back to x3000 (so that run-style calls and single steps also start from machines that have halted, paused or faulted before), step_in, step_over, step_out, run_with_limit(0,1,2,5,u64::MAX), the host setting instructions_run to u64::MAX-1 or 0 (documented as resettable), run, run_while(R0 != 2), insert/remove a PC, a register (R0 == 2) and a memory (M != 0) breakpoint, arm an asynchronous MCR clear 0/1/3 polls ahead. After every operation the real simulator is compared with a twin that is driven ONLY by step_in under the documented stop rules (halt, error, breakpoint after an executed step, step limit, tripwire, frame depth, MCR cleared): result, registers, PC, PSR, saved SP, memory, frame depth, instruction count, output, hit_halt/hit_breakpoint, MCR. Any split of a run into segments therefore equals the unbroken run. non-trivial = states at depth >= 1");
+    let mut rep = Report::new("explicit-state BFS, for each of 8 programs (two under real traps that raise an exception mid-way: a reserved opcode, a user-mode RTI; a spin and a call-to-self with the breakpoint on the self-jumping instruction; nested calls 2 deep + loop + PUTS trap + HALT; a store loop for memory breakpoints; the first program under real traps, halting through the OS's MCR write; a straight line), over histories of 24 operations: the host moving the PC back to x3000 (so that run-style calls and single steps also start from machines that have halted, paused or faulted before), step_in, step_over, step_out, run_with_limit(0,1,2,5,u64::MAX), the host setting instructions_run to u64::MAX-1 or 0 (documented as resettable), run, run_while(R0 != 2), insert/remove a PC, a register (R0 == 2) and a memory (M != 0) breakpoint, arm an asynchronous MCR clear 0/1/3 polls ahead. After every operation the real simulator is compared with a twin that is driven ONLY by step_in under the documented stop rules (halt, error, breakpoint after an executed step, step limit, tripwire, frame depth, MCR cleared): result, registers, PC, PSR, saved SP, memory, frame depth, instruction count, output, hit_halt/hit_breakpoint, MCR. Any split of a run into segments therefore equals the unbroken run. non-trivial = states at depth >= 1");
     let depth = ctx.pick(5usize, 8usize);
     let mut total_states = 0u64; let mut total_tr = 0u64; let mut frontier_total = 0u64;
-    for prog in [0usize, 1, 2, 3, 5, 6] {
+    for prog in [0usize, 1, 2, 3, 5, 6, 7, 8] {
         let (states, transitions, frontier, per_depth, capped) = bfs_hist(ctx, &mut rep.acc, OPS.len(), depth, &|h| format!("{prog}:{}", h.iter().map(|x| x.to_string()).collect::<Vec<_>>().join(",")), |h| visit(prog, h));
         total_states += states; total_tr += transitions; frontier_total += frontier;
         for (d, n) in per_depth.iter().enumerate() { rep.acc.outcomes.insert(mix(prog as u64 * 16 + d as u64, *n)); rep.acc.count(&format!("program{prog}_new_states_depth_{d}"), *n); }
